@@ -24,7 +24,6 @@ import (
 	"runtime"
 	"slices"
 	"strings"
-	"sync"
 	"time"
 	"unsafe"
 
@@ -514,30 +513,16 @@ func (server *SugarDB) updateKeysInCache(ctx context.Context, keys []string) (in
 		}
 	}
 
-	wg := sync.WaitGroup{}
-	errChan := make(chan error)
-	doneChan := make(chan struct{})
-
-	for db, _ := range server.store {
-		wg.Add(1)
-		ctx := context.WithValue(ctx, "Database", db)
-		go func(ctx context.Context, database int, wg *sync.WaitGroup, errChan *chan error) {
-			if err := server.adjustMemoryUsage(ctx); err != nil {
-				*errChan <- fmt.Errorf("adjustMemoryUsage database %d, error: %v", database, err)
-			}
-			wg.Done()
-		}(ctx, db, &wg, &errChan)
+	// Bring the databases back under the limit one after the other: the evictions share the memory
+	// figure (and the store lock held here), so each must see what the previous one has freed.
+	var firstErr error
+	for db := range server.store {
+		if err := server.adjustMemoryUsage(context.WithValue(ctx, "Database", db)); err != nil && firstErr == nil {
+			firstErr = fmt.Errorf("adjustMemoryUsage database %d, error: %v", db, err)
+		}
 	}
-
-	go func() {
-		wg.Wait()
-		doneChan <- struct{}{}
-	}()
-
-	select {
-	case err := <-errChan:
-		return touchCounter, fmt.Errorf("adjustMemoryUsage error: %+v", err)
-	case <-doneChan:
+	if firstErr != nil {
+		return touchCounter, fmt.Errorf("adjustMemoryUsage error: %+v", firstErr)
 	}
 
 	return touchCounter, nil
